@@ -609,3 +609,26 @@ pub mod c38 {
             .map_err(|e| format!("json: {e:?}"))
     }
 }
+
+/// C03: index maintenance. `IdxKey` is crate-private, so opening a (file-backed or in-memory)
+/// backend under a given index layout needs a wrapper. Add-only.
+pub mod c03 {
+    use crate::be::{Backend, BackendConfig, IdxKey};
+    use crate::prelude::*;
+    use kanidm_proto::internal::FsType;
+    use std::path::Path;
+
+    /// `Backend::new` on `path` (`None` = in-memory SQLite) with index metadata `layout`.
+    /// No index table is created here (that is `reindex`).
+    pub fn backend_open(
+        path: Option<&Path>,
+        layout: &[(Attribute, IndexType)],
+    ) -> Result<Backend, OperationError> {
+        let cfg = BackendConfig::new(path, 1, FsType::Generic, None);
+        let keys = layout
+            .iter()
+            .map(|(a, t)| IdxKey::new(a.clone(), *t))
+            .collect();
+        Backend::new(cfg, keys, false)
+    }
+}
